@@ -314,7 +314,11 @@ func initializeSensors(controllers []*hwmon.HwMonController) error {
 				}
 				if matched {
 					found = true
-					config.HwMon.TempInput = c.Sensors[config.HwMon.Index].Input
+					hwmonSensor, exists := c.Sensors[config.HwMon.Index]
+					if !exists {
+						return fmt.Errorf("couldn't find temperature sensor with index %d on hwmon device '%s' for sensor: %s. Run 'fan2go detect' again and correct any mistake", config.HwMon.Index, c.Platform, config.ID)
+					}
+					config.HwMon.TempInput = hwmonSensor.Input
 				}
 			}
 			if !found {
